@@ -134,5 +134,16 @@ pub fn plan(tier: Tier) -> Plan {
             }));
         }
     }
+    for part in 0..8usize {
+        p.units.push(unit("mixed-mid-size-family-monotone-members-(finite-family)", format!("mixed part {}", part), move |st, rep| {
+            // members with value mode 5 have strictly increasing values
+            for (i, (name, kvs)) in mixed_family(if thorough { 1260 } else { 252 }).into_iter().enumerate() {
+                if i % 8 != part || !name.ends_with("-v5") || kvs.len() > 1300 { continue; }
+                st.nontrivial += 1;
+                st.count("mixed_cases", 1);
+                do_case(&kvs, (10_000, 2), st, rep);
+            }
+        }));
+    }
     p
 }
